@@ -4,6 +4,7 @@ import (
 	"bufio"
 	"bytes"
 	"context"
+	"errors"
 	"fmt"
 	"io"
 	"net"
@@ -34,6 +35,8 @@ func init() {
 // The handlers are scripted by the request itself:
 //   name = "ok" | "fail-before" | "fail-after" ; i32 = number of replies (server streams).
 
+var c18Plain = errors.New("plain failure, not a status")
+
 var c18Err = status.Error(codes.PermissionDenied, "boom ✓")
 
 func c18Specs(svc string, withRules bool) []*MethodSpec {
@@ -54,6 +57,14 @@ func c18Specs(svc string, withRules bool) []*MethodSpec {
 			case <-time.After(2 * time.Second):
 			}
 			return nil, c18Err // not the context's own status: End must carry THIS error
+		}
+		switch str(in, "name") {
+		case "failplain": // an error that is not a gRPC status
+			return nil, c18Plain
+		case "faileof": // a sentinel a careless handler passes on
+			return nil, io.EOF
+		case "failcanceled":
+			return nil, context.Canceled
 		}
 		if strings.HasPrefix(str(in, "name"), "fail") {
 			return nil, c18Err
@@ -747,6 +758,42 @@ func c18Edges(c *Ctx, e *c18Env) {
 		case <-time.After(3 * time.Second):
 		}
 	}, "/" + fxPkg + ".Svc/BD"})
+	// errors that are not plain status errors: End carries the handler's error itself, the client sees a failure
+	for _, mode := range []struct {
+		name string
+		err  error
+	}{{"failplain", c18Plain}, {"faileof", io.EOF}, {"failcanceled", context.Canceled}} {
+		for _, tr := range []string{"application/grpc-web+proto", "application/grpc+proto"} {
+			b, _ := proto.Marshal(c18Req(fx, mode.name, "", 0))
+			r := httptest.NewRequest("POST", "/"+fxPkg+".Svc/U", bytes.NewReader(grpcFrame(0, b)))
+			r.Header.Set("Content-Type", tr)
+			if tr == "application/grpc+proto" {
+				r.ProtoMajor, r.ProtoMinor = 2, 0
+			}
+			e.st.Reset()
+			rec, pn := serveOn(fx.Mux, r)
+			evs, endErrs := e.st.Snapshot()
+			name := fmt.Sprintf("%s: the handler returns %v (%T)", tr, mode.err, mode.err)
+			c.Eval("edge", name, true)
+			c.Class("edge")
+			if pn != nil || len(evs) == 0 {
+				continue
+			}
+			if len(endErrs) != 1 || endErrs[0] != mode.err {
+				c.SpecFail("stats", name, fmt.Sprintf("end carries %v", endErrs), fmt.Sprintf("the handler's error %v itself", mode.err), "C18/edge/end-error/not-the-handlers-error", "End does not carry the error the handler returned")
+			}
+			st := rec.Header().Get("Grpc-Status")
+			if st == "" {
+				st = rec.Result().Trailer.Get("Grpc-Status")
+			}
+			if i := strings.Index(rec.Body.String(), "grpc-status: "); i >= 0 {
+				st = strings.SplitN(rec.Body.String()[i+13:], "\r", 2)[0]
+			}
+			if st == "0" || st == "" {
+				c.SpecFail("stats", name, fmt.Sprintf("grpc-status %q", st), "a non-OK status", "C18/edge/handler-error-reported-ok", "what the handler (or interceptor) returned is not what the client gets: an error is reported as OK")
+			}
+		}
+	}
 	// a binding without a body mapping called with a request body: the message is still one in-payload
 	for _, chunked := range []bool{false, true} {
 		name := fmt.Sprintf("http: GET binding called with a request body (chunked=%v)", chunked)
